@@ -14,6 +14,7 @@ NumA == << 21, 8, 9, 8, 9, 0, 2, 12, 3 >>   \* L898902C3
 NumB == << 10, 11, 1, 2 >>   \* AB12
 NumC == << 13, 2, 3, 1, 4, 5, 8, 9, 0, 7, 3, 4 >>   \* D23145890734   (extended, TD1/TD2 only)
 NumD == << 33, 1 >>   \* X1
+NumF == << 13, 2, 3, 1, 4, 5, 8, 9, 0, 7 >>   \* D231458907  (extended by ONE character which equals the check digit of the first nine)
 NumE == << 10, 11, 36, 1, 2, 3, 4, 5 >>   \* AB<12345   (printed as AB-12345: interior filler)
 DobA == << 7, 4, 0, 8, 1, 2 >>   \* 740812
 DobB == << 0, 0, 0, 1, 0, 1 >>   \* 000101
@@ -28,7 +29,7 @@ StateA == << 30, 29, 24 >>   \* UTO
 CodeP == << 25, 36 >>   \* P<
 SexF == << 15 >>   \* F
 
-NumOf(n)  == CASE n = "A" -> NumA [] n = "B" -> NumB [] n = "C" -> NumC [] n = "D" -> NumD [] n = "E" -> NumE
+NumOf(n)  == CASE n = "A" -> NumA [] n = "B" -> NumB [] n = "C" -> NumC [] n = "D" -> NumD [] n = "E" -> NumE [] n = "F" -> NumF
 DobOf(n)  == IF n = "A" THEN DobA ELSE DobB
 ExpOf(n)  == IF n = "A" THEN ExpA ELSE ExpB
 OptOf(n)  == IF n = "A" THEN OptA ELSE OptNone
@@ -75,7 +76,7 @@ Build(lay, num, dob, exp, opt, name) ==
     [] lay = "TD3" -> BuildTD3(num, dob, exp, opt, name)
 
 BasesOf(lay) == { Build(lay, NumOf(n), DobOf(d), ExpOf(e), OptOf(o), NameOf(nm)) :
-                     n \in { x \in Nums : ~(lay = "TD3" /\ x = "C") }, d \in Dobs, e \in Exps, o \in Opts, nm \in Names }
+                     n \in { x \in Nums : ~(lay = "TD3" /\ x \in {"C", "F"}) }, d \in Dobs, e \in Exps, o \in Opts, nm \in Names }
 Bases == UNION { BasesOf(lay) : lay \in Layouts }
 
 Subst(b, p, c) == [b EXCEPT ![p] = c]
